@@ -42,15 +42,15 @@ class PairSystem(System):
             f = BloomFilter(n, p)
             for s in ("table", "fnv") if quick else ("table", "fnv", "md5", "dec_int"):
                 cfgs.append(dict(kind="bloom", n=n, p=p, m=f.number_bits, k=f.number_hashes, strat=s, nkeys=3 if quick else 4,
-                                 depth=4 if quick else 6, seed=seed, cost=30))
+                                 depth=4 if quick else 6, seed=seed, cost=6000))
         for n, p in GEOMS[:3] if quick else GEOMS:
             f = CountingBloomFilter(n, p)
             for s in ("table", "fnv"):
                 cfgs.append(dict(kind="cbf", n=n, p=p, m=f.number_bits, k=f.number_hashes, strat=s, nkeys=3,
-                                 depth=4 if quick else 5, seed=seed, cost=20))
+                                 depth=4 if quick else 5, seed=seed, cost=4000))
         for (w, d) in ((1, 1), (2, 2), (3, 2)) if quick else ((1, 1), (2, 2), (3, 2), (2, 3), (3, 3)):
             for s in ("table", "fnv"):
-                cfgs.append(dict(kind="cms", width=w, depth_=d, strat=s, nkeys=3, depth=4 if quick else 5, seed=seed, cost=20))
+                cfgs.append(dict(kind="cms", width=w, depth_=d, strat=s, nkeys=3, depth=4 if quick else 5, seed=seed, cost=4000))
         if seed:
             r = seed % len(cfgs)
             cfgs = cfgs[r:] + cfgs[:r]
@@ -173,6 +173,16 @@ class PairSystem(System):
         single = self._single(cfg, m)
         cs = bloomlib.cells_of(single)
         variants = [("mem", "mem", a, b)]
+        # operands that are themselves results of a set operation (their element count is an estimate, possibly 0)
+        empty = self._new(cfg, hf)
+        da_, db_ = call(a.union, empty), call(b.union, empty)
+        if da_[0] == "ok" and db_[0] == "ok" and da_[1] is not None and db_[1] is not None:
+            if bloomlib.cells_of(da_[1]) != ca or bloomlib.cells_of(db_[1]) != cb:
+                bad("C12", "pair.union_with_empty_is_copy", {"A": ca, "A_u_empty": bloomlib.cells_of(da_[1])})
+            else:
+                variants += [("derived", "mem", da_[1], b), ("mem", "derived", a, db_[1]), ("derived", "derived", da_[1], db_[1])]
+        else:
+            bad("C12", "pair.union_returns_filter", {"with": "empty", "obs": repr((da_, db_))[:200]})
         tmp = None
         opened = []
         if not counting and ("C12" in props or "C13" in props):
@@ -268,17 +278,33 @@ class PairSystem(System):
 
     def _incompatible(self, cfg, a, b, hf, counting, bad):
         cls = CountingBloomFilter if counting else BloomFilter
+        def later_rows_differ(key, depth=1):
+            r = hf(key, depth)
+            return r[:1] + [x ^ 0x5A5A5A for x in r[1:]]
+
         others = {
             "other_geometry": cls(cfg["n"] + 7, cfg["p"], hash_function=hf),
             "other_rate": cls(cfg["n"], 0.0001, hash_function=hf),
             "other_hash": cls(cfg["n"], cfg["p"], hash_function=shifted_fnv),
+            "other_hash_same_first_value": cls(cfg["n"], cfg["p"], hash_function=later_rows_differ),
         }
+        # a geometry that differs only inside the last byte (same number of hashes, same byte length)
+        for j in range(1, 400):
+            try:
+                cand = cls(cfg["n"], cfg["p"] * (1 + j * 0.004), hash_function=hf)
+            except Exception:  # noqa: BLE001
+                break
+            if cand.number_bits != a.number_bits and cand.number_hashes == a.number_hashes and (
+                counting or cand.bloom_length == a.bloom_length
+            ):
+                others["other_bits_same_bytes"] = cand
+                break
         for o in others.values():
             o.add("other-key")
         for name, o in others.items():
             if (o.number_bits, o.number_hashes) == (a.number_bits, a.number_hashes) and name != "other_hash":
                 continue
-            if name == "other_hash" and a.hashes("test") == o.hashes("test"):
+            if name.startswith("other_hash") and a.hashes("test") == o.hashes("test"):
                 continue
             ob = call(bytes, o)
             for x, y, order in ((a, o, "recv"), (o, a, "operand")):
@@ -307,6 +333,11 @@ class PairSystem(System):
         bs = call(bytes, single)
         for order, (x, y) in (("A.B", (a, b)), ("B.A", (b, a))):
             recv = self.clone(State(x, None)).impl
+            if order == "B.A":
+                # a join that is refused first must not leak into a later valid join
+                wrong = CountMinSketch(width=cfg["width"] + 1, depth=cfg["depth_"], hash_function=hf)
+                wrong.add(keys[0], 5)
+                call(recv.join, wrong)
             r = call(recv.join, y)
             if "C12" in props:
                 if r[0] != "ok":
@@ -333,14 +364,19 @@ class PairSystem(System):
                 if r2[0] != "ok" or call(bytes, mean) != call(bytes, y):
                     bad("C12", "pair.join_into_empty_is_copy", {"order": order, "obs": r2})
         if "C13" in props:
+            def later_rows_differ(key, depth=1):
+                r = hf(key, depth)
+                return r[:1] + [x ^ 0x5A5A5A for x in r[1:]]
+
             others = {
+                "other_hash_same_first_row": CountMinSketch(width=cfg["width"], depth=cfg["depth_"], hash_function=later_rows_differ),
                 "other_width": CountMinSketch(width=cfg["width"] + 1, depth=cfg["depth_"], hash_function=hf),
                 "other_depth": CountMinSketch(width=cfg["width"], depth=cfg["depth_"] + 1, hash_function=hf),
                 "other_hash": CountMinSketch(width=cfg["width"], depth=cfg["depth_"], hash_function=shifted_fnv),
             }
             for name, o in others.items():
                 o.add("other-key", 3)
-                if name == "other_hash" and a.hashes("test") == o.hashes("test"):
+                if name.startswith("other_hash") and a.hashes("test") == o.hashes("test"):
                     continue
                 ob = call(bytes, o)
                 for x, y in ((a, o), (o, a)):
